@@ -42,14 +42,20 @@ def splitters(rng):
         # lineage splitter
         LM = LineageModel(species=SP, reactions=[(['A'], ['B'], 'massaction', {'k': 1.0})], initial_condition_dict={s: 1 for s in SP})
         opts = dict(modes)
-        vmode = rng.choice(['binomial', 'perfect', 'duplicate'])
-        opts['volume'] = vmode
         opts['default'] = rng.choice(['binomial', 'perfect', 'duplicate'])
+        if rng.random() < 0.4:          # no 'volume' key: the volume follows the default mode
+            vmode = opts['default']
+        else:
+            vmode = rng.choice(['binomial', 'perfect', 'duplicate'])
+            opts['volume'] = vmode
         drop = rng.choice(SP)
         modes2 = dict(modes)
         del opts[drop]
         modes2[drop] = opts['default']
-        ls = LineageVolumeSplitter(LM, options=opts, partition_noise=noise)
+        try:
+            ls = LineageVolumeSplitter(LM, options=opts, partition_noise=noise)
+        except Exception as e:
+            return dict(reproduced=True, call='LineageVolumeSplitter(M, options=%r)' % opts, what='constructor raised', observed=repr(e), expected='a splitter')
         pl = LineageVolumeCellState(v0=V, t0=0.25, state=x.copy())
         d, e = ls.py_partition(pl)
         bad = check_partition('LineageVolumeSplitter(options=%r, noise=%r)' % (opts, noise), LM, modes2, x, V, d, e, vmode == 'duplicate', vmode)
